@@ -5,6 +5,7 @@ import (
 	"errors"
 	"fmt"
 	"runtime"
+	"runtime/debug"
 	"strconv"
 	"strings"
 	"sync"
@@ -353,9 +354,13 @@ func rejects(outs []rig.Out) []rig.Out {
 
 func main() {
 	c := vk.Init("C06")
-	c.Rule(fmt.Sprintf("histories over an alphabet of %d symbols (3 good Logons at mid/min/max interval, 7 refused or damaged Logons, Heartbeat, TestRequest, 2 ResendRequests, Logout, application and unknown types, local Send, local Logout), both roles: EXHAUSTIVE over all histories up to length 3 (quick) / 4 (thorough), plus seeded random histories up to length 14 with varied heartbeat limits (every fifth: Min = Max), plus, for limits that admit intervals no timer can run with (0, negative, beyond time.Duration), Logons carrying such intervals: the outcome must be ONE decision (Logon reply first + logged on + one event + no Reject, or one Reject + not logged on + no event) and the next TestRequest is served accordingly; plus initiating sessions whose acceptor answers with another interval, logged out by the peer and logged on again by LogonRequest: the second Logon carries the configured interval, method and credentials like the first; plus real-time histories (N=1) in which the timers of an ended logon expire after a Logout before the next inbound message. Oracle: reference logon automaton transcribed from the statement, run against IsLogged / EventLogon / messages on Outgoing() after every step. distinct = distinct (role, limits, symbol sequence); non-trivial = the history contains a Logon decision", len(alpha)))
+	c.Rule(fmt.Sprintf("histories over an alphabet of %d symbols (3 good Logons at mid/min/max interval, 7 refused or damaged Logons, Heartbeat, TestRequest, 2 ResendRequests, Logout, application and unknown types, local Send, local Logout), both roles: EXHAUSTIVE over all histories up to length 3, in the thorough tier plus 300 000 seeded histories of length 4, plus seeded random histories up to length 14 with varied heartbeat limits (every fifth: Min = Max), plus, for limits that admit intervals no timer can run with (0, negative, beyond time.Duration), Logons carrying such intervals: the outcome must be ONE decision (Logon reply first + logged on + one event + no Reject, or one Reject + not logged on + no event) and the next TestRequest is served accordingly; plus initiating sessions whose acceptor answers with another interval, logged out by the peer and logged on again by LogonRequest: the second Logon carries the configured interval, method and credentials like the first; plus real-time histories (N=1) in which the timers of an ended logon expire after a Logout before the next inbound message. Oracle: reference logon automaton transcribed from the statement, run against IsLogged / EventLogon / messages on Outgoing() after every step. distinct = distinct (role, limits, symbol sequence); non-trivial = the history contains a Logon decision", len(alpha)))
 	c.Assume("step driver: unbuffered handler, barrier handlers registered after Session.Run, so outputs are attributed to steps exactly; heartbeat intervals >= 5 s and histories finish in milliseconds, so no timer fires inside a history (histories slower than 4 s are inconclusive)")
-	maxLen := c.Pick(3, 4)
+	// The alphabet has grown to 38 symbols: all histories of length 4 (2 x 2 million sessions, each leaving its timer
+	// goroutines behind for some seconds) no longer fit into memory (the thorough run of wave 12 was killed at 65 GB).
+	// Exhaustive up to length 3 in both tiers; the thorough tier adds a seeded sample of length-4 histories.
+	maxLen := 3
+	nLen4 := c.Pick(0, 300000)
 	nRandom := c.Pick(1500, 40000)
 	type job struct {
 		cfg  cfgT
@@ -384,6 +389,16 @@ func main() {
 		}
 	}
 	exhaustiveN := len(jobs)
+	for i := 0; i < nLen4; i++ {
+		r := c.Rand("c06-len4", int64(i))
+		cfg := cfgT{role: rig.Role(i % 2), lim: [2]int{5, 9}, hb: 5}
+		h := make([]int, 4)
+		for k := range h {
+			h[k] = r.Intn(len(alpha))
+		}
+		jobs = append(jobs, job{cfg, h})
+	}
+	c.Set("sampled_histories_of_length_4", nLen4)
 	for i := 0; i < nRandom; i++ {
 		r := c.Rand("c06-random", int64(i))
 		lo := 5 + r.Intn(20)
@@ -406,13 +421,28 @@ func main() {
 	// bounded parallelism: each logged-on history leaves two timer goroutines sleeping for up to N seconds
 	var rmu sync.Mutex
 	var redo []int
-	vk.Parallel(len(jobs), runtime.NumCPU(), func(i int) {
-		if !runHistory(c, jobs[i].cfg, jobs[i].hist, int64(i)) {
-			rmu.Lock()
-			redo = append(redo, i)
-			rmu.Unlock()
+	// in portions of 80 000 histories: the timer goroutines of a finished history (and everything they hold on to)
+	// live on until the session has given up its silent peer, two periods of N+1 <= 10 s later; a pause between the
+	// portions lets them go, so that memory stays at a few GB (the quick tier is a single portion)
+	const portion = 80000
+	for from := 0; from < len(jobs); from += portion {
+		to := from + portion
+		if to > len(jobs) {
+			to = len(jobs)
 		}
-	})
+		vk.Parallel(to-from, runtime.NumCPU(), func(k int) {
+			i := from + k
+			if !runHistory(c, jobs[i].cfg, jobs[i].hist, int64(i)) {
+				rmu.Lock()
+				redo = append(redo, i)
+				rmu.Unlock()
+			}
+		})
+		if to < len(jobs) {
+			time.Sleep(21 * time.Second)
+			debug.FreeOSMemory()
+		}
+	}
 	// histories that decided nothing because the machine was overloaded are run again, one at a time, when everything else is over
 	if len(redo) > 0 {
 		time.Sleep(2 * time.Second)
